@@ -64,10 +64,9 @@ Definition run_c19_match (s : sx) : sx :=
            | _ => kw_rec ascii_word ic v w
            end in
   L [L (map (fun p => match f p with Some m => ofNat (length m) | None => A 0 end) ps);
-     L (map (fun p => ofB (kw_spec ascii_word ic v w p)) ps);
-     ofB (regex_plain v)].
+     L (map (fun p => ofB (kw_spec ascii_word ic v w p)) ps)].
 
-(* 193: ((fqn prior kind len regex_len finish) ...) -> (sorted fqns, finish flags)
+(* 193: ((fqn prior kind len name_len finish) ...) -> (sorted fqns, finish flags)
    kind 0 string / 1 keyword / 2 regex; finish 0 = unmarked, 1 = nofinish, 2 = finish *)
 Definition aterm_of_sx (s : sx) : aterm :=
   let v := repeat 0 (sxNat (sx_nth s 3)) in
